@@ -8,7 +8,7 @@ TB = ("Sampling, not proof. Trusted base: the simulator (scenario generator, exe
 
 CHECKS = {
  "C03": ("exploration", "7",
-   "Seeded simulation of random valid call histories (4 workload profiles incl. a discrete-event rate-matching loop with clock drift/jumps/stalls, plus directed extremes) over all 7 types x f32/f64 with control faults (ratio steps/ramps at and inside the bounds, chunk changes, resets, partial/flush calls, slack buffers, NaN-filled input slack, varying masks, ragged channels, odd-length user interpolators, wild and huge (>2^24 frames) parameter ranges, one channel with non-finite samples). Oracle: every call completes Ok, no panic, no abort from std's unsafe-precondition/overflow checks (process isolation per worker), no hang, outputs finite; thorough adds two Miri passes (scalar+FFT, and SIMD sinc kernels). Exploration because the history space is unbounded: the evidence is a large sampled batch with replayable, minimised counterexamples.",
+   "Seeded simulation of random valid call histories (4 workload profiles incl. a discrete-event rate-matching loop with clock drift/jumps/stalls, plus directed extremes) over all 7 types x f32/f64 with control faults (ratio steps/ramps at and inside the bounds, chunk changes, resets, partial/flush calls, slack buffers, NaN-filled input slack, varying masks, ragged channels, odd-length user interpolators, wild and huge (>2^24 frames) parameter ranges, marathon histories of up to 3e5 calls on one instance, the degenerate filter length 0, aliased channel slices, a foreign call on the same thread that unwinds out of a user buffer accessor, one channel with non-finite samples). Oracle: every call completes Ok, no panic, no abort from std's unsafe-precondition/overflow checks (process isolation per worker), no hang, outputs finite; thorough adds two Miri passes (scalar+FFT, and SIMD sinc kernels). Exploration because the history space is unbounded: the evidence is a large sampled batch with replayable, minimised counterexamples.",
    "deterministic simulation: seeded call-history search with control-fault injection, crash containment by process isolation, UB-check build"),
  "C04": ("exploration", "7",
    "Same histories as C03; per-step invariants on getters vs returned counts and a NaN-sentinel high-water mark on every output buffer (exactly the reported frames are written, nothing beyond), max getters never change.",
@@ -20,7 +20,7 @@ CHECKS = {
    "Position mode: index signal and (for sinc) a harness linear-probe SincInterpolator via the public constructor make every output frame equal its evaluation instant; points computed over non-consecutive (stale/skipped) storage are poisoned. Oracle over the recorded history under ratio step/ramp schedules incl. exact bounds and a clock-drift controller: instants strictly increasing, every spacing inside [1/r_new, 1/r_old], stepped change exact from the first frame, ramp monotone, exact new spacing in the call after.",
    "deterministic simulation: time-warp oracle on recovered evaluation instants under ratio-control fault schedules"),
  "C07": ("exploration", "7",
-   "Constant-ratio streams under random chunk schedules incl. very long 1-3 frame chunk streams, streams used at other ratios and then reset, segments after a ratio change, and streaming ultra-long runs (up to 1.2e8 frames / 3e7 calls) at near-resonant ratios; conservation invariant on running totals after every call (async drift bound; FFT within one block, FftFixedInOut exact and smallest admissible block by integer arithmetic).",
+   "Constant-ratio streams under random chunk schedules incl. very long 1-3 frame chunk streams, streams used at other ratios and then reset, segments after a ratio change, and streaming ultra-long runs (up to 2.5e9 frames / 3e7 calls) at near-resonant ratios; conservation invariant on running totals after every call (async drift bound; FFT within one block, FftFixedInOut exact and smallest admissible block by integer arithmetic).",
    "deterministic simulation: conservation invariant at every step of seeded chunk schedules"),
  "C09": ("exploration", "7",
    "Allocator seam: the harness global allocator counts every alloc/realloc/dealloc on the calling thread while a real-time call (process_into_buffer, setters incl. rejected, reset, getters) is in progress, at every point of seeded histories.",
@@ -32,22 +32,22 @@ CHECKS = {
    "n-channel instance vs n mono twins with the same history; constant masks incl. all-false, inactive channels as empty slices, sentinel-filled outputs of masked channels must stay untouched; counts equal with and without mask.",
    "deterministic simulation: per-channel twin refinement with mask faults and sentinel buffers"),
  "C12": ("fault_enumeration", "7",
-   "At random points of live histories every control-value class is applied (both exact bounds, +-1..3 ulp neighbours, NaN, infinities, zero, negative, subnormal, huge, out-of-range; chunk 0/1/max/max+1/usize::MAX), through both setters, ramp on/off. Acceptance is compared with an exact reference model of the documented ranges; rejected calls must leave getters and the following calls bit-identical to a twin that never saw them; accepted relative calls must equal the absolute call; accepted chunk sizes must be applied by the next call.",
+   "At random points of live histories every control-value class is applied (both exact bounds, +-1..3 ulp neighbours, NaN, infinities, zero, negative, subnormal, huge, out-of-range; chunk 0/1/max/max+1/usize::MAX), through both setters, ramp on/off. Original ratios from 1e-5.5 to 1e5.5. Acceptance is compared with an exact reference model of the documented ranges; rejected calls must leave getters and the following calls bit-identical to a twin that never saw them; accepted relative calls must equal the absolute call; accepted chunk sizes must be applied by the next call.",
    "deterministic simulation: enumerated control-value faults at seeded history points against a reference acceptance model + skip-twin"),
  "C13": ("fault_enumeration", "7",
-   "Single-fault malformed calls (wrong in/out channel counts, wrong mask length, one active channel short by 1..all) through all eight entry paths at random points of live histories, plus invalid constructor arguments; oracle: exact error variant and fields, no panic, output buffers still 100 % sentinel, state bit-identical to a twin that skipped the calls.",
+   "Single-fault malformed calls (wrong in/out channel counts, wrong mask length, one active channel short by 1..all) through all eight entry paths at random points of live histories, long bursts of rejected calls, instances with chunk size 0, a foreign call on the thread that unwinds out of a user buffer accessor, plus invalid constructor arguments (the other arguments arbitrary, zeros included); oracle: exact error variant and fields, no panic, output buffers still 100 % sentinel, state bit-identical to a twin that skipped the calls.",
    "deterministic simulation: enumerated malformed-argument faults with exact-error model, sentinel buffers and skip-twin"),
  "C15": ("exploration", "7",
    "CPU seam (hook H1) runs the real make_interpolator dispatch on simulated CPUs (all features / no AVX / no FMA / no AVX+FMA / none) plus forced AVX, SSE, scalar kernels; streams compared; a harness cross-check interpolator evaluates all kernels on every (wave, index, subindex) the resampler really issues against a summation-order bound built from the recovered taps, and re-runs kernels on the window embedded among NaNs at a random alignment.",
    "deterministic simulation: CPU-feature fault seam + per-call kernel cross-check on arguments reached by seeded histories"),
  "C16": ("exploration", "7",
-   "Twin takes another of the eight entry paths (process, process_into_buffer, partial variants, VecResampler object) for the same data at every call; bit-exact outputs, counts and following state; VecResampler getters/setters forwarded; bounded liveness of the None-flush protocol after the last real input; the provided trait methods and the VecResampler wrapper are also exercised on a harness-written Resampler implementor.",
+   "Twin takes another of the eight entry paths (process, process_into_buffer, partial variants, VecResampler object) for the same data at every call; bit-exact outputs, counts and following state; VecResampler getters/setters forwarded; aliased and ragged channel slices, a foreign partial call on the same thread that unwinds mid-call; bounded liveness of the None-flush protocol after the last real input; the provided trait methods and the VecResampler wrapper are also exercised on a harness-written Resampler implementor.",
    "deterministic simulation: EOF/partial-call injection with path-twin equality and bounded-liveness check"),
  "C17": ("exploration", "7",
-   "f32 and f64 twins on the same (f32-rounded) stream and history: identical getter/count sequences at every step, table-normalisation gain judged separately (worst-case n*eps/2), residual within a len- or log2(N)-scaled multiple of f32 epsilon times peak.",
+   "f32 and f64 twins on the same (f32-rounded) stream and history: identical getter/count sequences at every step, table-normalisation gain judged separately (worst-case n*eps/2), residual within a len- or log2(N)-scaled multiple of f32 epsilon times peak; signal peaks from 1e-25 to 1e25.",
    "deterministic simulation: cross-type twin refinement over seeded fault histories"),
  "C18": ("exploration", "7",
-   "Baton scheduler: 2-16 real caller threads, one runnable at a time, a seeded schedule picks which instance takes its next call on which thread and migrates instances between threads at call boundaries (instances built on different threads, identical-config groups sharing planner caches); siblings differing in one construction parameter, late constructions and failing constructor calls; every call's result digest must equal the solo reference computed in a fresh process per instance; failures that depend on the worker's process history are violations replayed with that history; thorough adds Miri with preemption on concurrent threads.",
+   "Baton scheduler: 2-16 real caller threads, one runnable at a time, a seeded schedule picks which instance takes its next call on which thread and migrates instances between threads at call boundaries (instances built on different threads, identical-config groups sharing planner caches); siblings differing in one construction parameter, late constructions, failing constructor calls and foreign calls that unwind out of a user buffer accessor on a scheduled thread; every call's result digest must equal the solo reference computed in a fresh process per instance; failures that depend on the worker's process history are violations replayed with that history; thorough adds Miri with preemption on concurrent threads.",
    "deterministic simulation: seeded thread-schedule search (baton scheduler with migration) against per-process solo references"),
 }
 
